@@ -24,6 +24,9 @@ static COUNT: AtomicU64 = AtomicU64::new(0);
 /// -1 = disarmed
 static TARGET: AtomicI64 = AtomicI64::new(-1);
 static LAST_SITE: AtomicU64 = AtomicU64::new(0);
+static FIRED: std::sync::atomic::AtomicBool = std::sync::atomic::AtomicBool::new(false);
+/// per-site tick counts of the current run (index = Site as usize)
+static SITE_COUNTS: [AtomicU64; 8] = [const { AtomicU64::new(0) }; 8];
 
 thread_local! {
     pub static TID: Cell<u32> = const { Cell::new(0) };
@@ -43,8 +46,11 @@ pub fn tick(site: Site) {
         return;
     }
     let c = COUNT.fetch_add(1, Ordering::Relaxed);
+    SITE_COUNTS[site as usize].fetch_add(1, Ordering::Relaxed);
     if t >= 0 && c == t as u64 {
         LAST_SITE.store(site as u64, Ordering::Relaxed);
+        FIRED.store(true, Ordering::SeqCst);
+        FIRED_EVENT.store(if matches!(site, Site::Callback) { LAST_EVENT.load(Ordering::Relaxed) } else { 0 }, Ordering::SeqCst);
         std::panic::panic_any(Injected(c, site));
     }
 }
@@ -52,6 +58,10 @@ pub fn tick(site: Site) {
 /// reset the counter; `target = Some(k)` arms a panic at the k-th tick
 pub fn reset(target: Option<u64>) {
     COUNT.store(0, Ordering::SeqCst);
+    FIRED.store(false, Ordering::SeqCst);
+    for c in &SITE_COUNTS {
+        c.store(0, Ordering::SeqCst);
+    }
     TARGET.store(target.map(|k| k as i64).unwrap_or(-1), Ordering::SeqCst);
 }
 
@@ -68,4 +78,34 @@ pub fn count() -> u64 {
 }
 pub fn disarm() {
     TARGET.store(-1, Ordering::SeqCst);
+}
+
+/// has the armed fault been raised since the last `reset`?
+pub fn fired() -> bool {
+    FIRED.load(Ordering::SeqCst)
+}
+pub fn last_site() -> Site {
+    site_from(LAST_SITE.load(Ordering::SeqCst) as usize)
+}
+pub fn site_from(i: usize) -> Site {
+    [Site::BodyStart, Site::Op, Site::OutEq, Site::FieldEq, Site::FieldHash, Site::CycleFn, Site::CycleInitial, Site::Callback][i.min(7)]
+}
+pub fn site_counts() -> [u64; 8] {
+    let mut a = [0; 8];
+    for (i, c) in SITE_COUNTS.iter().enumerate() {
+        a[i] = c.load(Ordering::SeqCst);
+    }
+    a
+}
+
+/// discriminant of the salsa event whose delivery ticked the `Callback` site last
+/// (1 = WillDiscardStaleOutput, 2 = DidDiscard, 3 = DidDiscardAccumulated, 0 = anything else)
+static LAST_EVENT: AtomicU64 = AtomicU64::new(0);
+static FIRED_EVENT: AtomicU64 = AtomicU64::new(0);
+pub fn note_event(kind: u64) {
+    LAST_EVENT.store(kind, Ordering::Relaxed);
+}
+/// event kind being delivered when the armed fault fired at the `Callback` site
+pub fn fired_event() -> u64 {
+    FIRED_EVENT.load(Ordering::SeqCst)
 }
